@@ -407,13 +407,15 @@ ALPHABETS = {
 def gen_history(tier, seed):
     ls = (1, 6) if tier == "quick" else (1, 2, 4, 6, 12)
     for l in ls:
-        for cell in ("orth", "tri"):
+        for cell in ("orth", "tri", "trivar"):
             for wmode in ("none", "signed"):
                 for alpha in ("mixed", "even02", "even03"):
-                    H = cell2(cell)
-                    cfgs = [positions(seed, 4, "cluster", H, tag=f"h{c}") for c in range(3)]
+                    H = cell2("tri" if cell == "trivar" else cell)
+                    # "trivar": every configuration letter carries its own cell (same edge lengths, tilt x 1, -1, 1/2): sheared trajectory
+                    Hc = [np.diag(np.diag(H)) + (H - np.diag(np.diag(H))) * (f if cell == "trivar" else 1.0) for f in (1.0, -1.0, 0.5)]
+                    cfgs = [positions(seed, 4, "cluster", Hc[c], tag=f"h{c}") for c in range(3)]
                     a = ALPHABETS[alpha]
-                    yield {"l": l, "cell": cell, "H": H.tolist(), "ppp": [1, 1] if alpha != "even03" else [0, 1], "wmode": wmode, "cfgs": cfgs,
+                    yield {"l": l, "cell": cell, "H": H.tolist(), "H_cfgs": [h.tolist() for h in Hc], "ppp": [1, 1] if alpha != "even03" else [0, 1], "wmode": wmode, "cfgs": cfgs,
                            "alpha": alpha, "depth": a["depth"][0 if tier == "quick" else 1], "rdelta": 0.5 if alpha == "mixed" else 0.3, "step0": 700}
 
 
@@ -460,12 +462,13 @@ def run_history(case):
     letters, dt = a["letters"], a["dt"]
     cfgs = [np.array(c, float) for c in case["cfgs"]]
     sig = {"cell": case["cell"], "wmode": case["wmode"], "alpha": case["alpha"]}
-    if screen_margin(cfgs, H, ppp) < 1e-7:
+    Hc = [np.array(h, float) for h in case["H_cfgs"]] if case.get("H_cfgs") else [H] * len(cfgs)
+    if min(screen_margin([c], h, ppp) for c, h in zip(cfgs, Hc)) < 1e-7:
         return R.screen()
     refp, wl = {}, {}
     for k, (c, t, _) in enumerate(letters):
         wl[k] = weights_for(TOPO_H[t], case["wmode"])
-        refp[k] = B.ref_psi(cfgs[c], H, ppp, TOPO_H[t], l, wl[k])
+        refp[k] = B.ref_psi(cfgs[c], Hc[c], ppp, TOPO_H[t], l, wl[k])
     seen = set()
     frontier = [()]
     states = transitions = elem = popl = 0
@@ -482,7 +485,8 @@ def run_history(case):
                 steps = [case["step0"]]
                 for k in hist[1:]:
                     steps.append(steps[-1] + letters[k][2])
-                b, snaps = build(H, ppp, l, [f.tolist() for f in frames], nls, wts=wts, steps=steps)
+                Hs = np.array([Hc[letters[k][0]] for k in hist])
+                b, snaps = build(Hs, ppp, l, [f.tolist() for f in frames], nls, wts=wts, steps=steps)
                 F = len(hist)
                 sg = dict(sig, F=min(F, 3))
                 ser = np.array([refp[k] for k in hist])
@@ -499,7 +503,7 @@ def run_history(case):
                 nxt.append(hist)
                 outd.append(d)
                 check_time(R, sg, b.time_corr(dt=dt), ser, steps, dt, False, sub="C10.time")
-                ref = B.ref_spatial(frames, H, ppp, w, ser, "complex")
+                ref = B.ref_spatial(frames, Hs, ppp, w, ser, "complex")
                 popl = max(popl, check_spatial(R, sg, b.spatial_corr(rdelta=w), ref, False, sub="C10.spatial"))
                 elem += F + 2 * len(ref["r"])
                 if F >= 2:
